@@ -136,6 +136,11 @@ pub open spec fn bors_ok(b: oq3_syntax::BlockOrStmt, r: asg::Block) -> bool {
         oq3_syntax::BlockOrStmt::Stmt(s) => if translated(s) { r.statements@.len() == 1 && stmt_kind_ok(s, Some(r.statements@[0])) } else { r.statements@.len() == 0 },
     }
 }
+/// C06: one `case`: its control values (count) and the translations of the statements of its block
+pub open spec fn case_ok(c: synast::CaseExpr, g: asg::CaseExpr) -> bool {
+    &&& (c.sp_expression_list() is Some ==> g.control_values@.len() == c.sp_expression_list()->Some_0.sp_exprs().len())
+    &&& (c.sp_block_expr() is Some ==> block_ok(c.sp_block_expr()->Some_0.sp_statements(), g.statements@))
+}
 /// C06 / C05: if / else branches and loop bodies are attached to their statement in their roles
 pub open spec fn bodies_ok(s: synast::Stmt, r: Option<asg::Stmt>) -> bool {
     match s {
@@ -147,6 +152,15 @@ pub open spec fn bodies_ok(s: synast::Stmt, r: Option<asg::Stmt>) -> bool {
         }),
         synast::Stmt::WhileStmt(w) => r is Some && r->Some_0 is While && bors_ok(w.sp_block_or_stmt(), r->Some_0->While_0.loop_body),
         synast::Stmt::ForStmt(f) => r is Some && r->Some_0 is ForStmt && bors_ok(f.sp_block_or_stmt(), r->Some_0->ForStmt_0.loop_body),
+        // switch: one case of the graph per case written, in order, each with its values and the translations of its statements;
+        // the default block exactly when written
+        synast::Stmt::SwitchCaseStmt(w) => r is Some && r->Some_0 is SwitchCaseStmt && ({
+            let g = r->Some_0->SwitchCaseStmt_0;
+            &&& g.cases@.len() == w.sp_case_exprs().len()
+            &&& forall|k: int| 0 <= k < g.cases@.len() ==> case_ok(#[trigger] w.sp_case_exprs()[k], g.cases@[k])
+            &&& (g.default_block is Some) == (w.sp_default_block() is Some)
+            &&& (g.default_block is Some ==> block_ok(w.sp_default_block()->Some_0.sp_statements(), g.default_block->Some_0@))
+        }),
         // gate and subroutine bodies
         synast::Stmt::Gate(g) => r is Some && r->Some_0 is GateDefinition && (g.sp_body() is Some ==> block_ok(g.sp_body()->Some_0.sp_statements(), r->Some_0->GateDefinition_0.block.statements@)),
         synast::Stmt::Def(d) => r is Some && r->Some_0 is DefStmt && (d.sp_body() is Some ==> block_ok(d.sp_body()->Some_0.sp_statements(), r->Some_0->DefStmt_0.block.statements@)),
